@@ -259,6 +259,90 @@ def main():
                 res['logs'].append({'cls': cls, 'size': list(s), 'name': nm, 'axis': ax, 'dir': [a, b, c], 'p': p,
                                     'x': [int(i) for i in np.nonzero(e[:n])[0]], 'z': [int(i) for i in np.nonzero(e[n:])[0]],
                                     'prob': pr, 'log': lg, 'expected': float(exp), 'expected_log': exp_log})
+    # Metropolis step of the splitting method: the acceptance probability it draws with and the log-probability it returns,
+    # against the STATED channel.  np.random.choice is wrapped only to READ what the step drew (index, Pauli, accept probability).
+    res['metro'] = []
+    try:
+        from panqec.simulation import SplittingSimulation
+    except Exception:
+        SplittingSimulation = None
+
+    class _Zero:
+        label = 'zero'
+        params = {}
+        id = 'ZeroDecoder'
+
+        def __init__(self, n):
+            self.n = n
+
+        def decode(self, syndrome, **kw):
+            return np.zeros(2 * self.n, dtype='uint8')
+
+    mixed = [d_ for d_ in dirs if sum(1 for t in d_ if t) >= 2]
+    for cls, s in ([('Toric2DCode', (3, 3)), ('Planar2DCode', (3, 4)), ('Toric3DCode', (2, 2, 3)), ('RhombicPlanarCode', (2, 2, 2)), ('Color666ToricCode', (1, 1))]
+                   if SplittingSimulation is not None else []):
+        klass = getattr(pc, cls)
+        code = klass(*s)
+        n = code.n
+        choices = [(None, None)] + [(nm, ax) for nm in klass.deformation_names for ax in dc.AXES.get(cls, [None])]
+        for (nm, ax) in choices:
+            kw = {'deformation_axis': ax} if ax else {}
+            a, b, c = rng.choice(mixed)
+            em = PauliErrorModel(a / 8, b / 8, c / 8, deformation_name=nm, deformation_kwargs=kw)
+            p = rng.choice([1, 3, 8, 13]) / 16
+            base_ = {'I': 1 - p, 'X': p * a / 8, 'Y': p * b / 8, 'Z': p * c / 8}
+            ddl = [dict(code.get_deformation(q_, nm, **kw), I='I') if nm else {'I': 'I', 'X': 'X', 'Y': 'Y', 'Z': 'Z'} for q_ in code.qubit_coordinates]
+
+            def stated_log(e):
+                t = 0.0
+                for i in range(n):
+                    f_ = base_[ddl[i]['IXZY'[int(e[i]) + 2 * int(e[n + i])]]]
+                    if f_ == 0:
+                        return -math.inf
+                    t += math.log(f_)
+                return t
+            sim = SplittingSimulation(code, em, [_Zero(n)], [p], 1, verbose=False)
+            for rep_i in range(8 if tier == 'quick' else 30):
+                # a previous error that is possible under the channel, dense enough that the proposal often lands on an occupied qubit
+                prev = np.zeros(2 * n, dtype='uint')
+                for i in range(n):
+                    poss = [P for P in 'XYZ' if base_[ddl[i][P]] > 0]
+                    if rng.random() < 0.6:
+                        P = rng.choice(poss)
+                        prev[i], prev[n + i] = int(P in 'XY'), int(P in 'ZY')
+                drawn = []
+                orig = np.random.choice
+
+                def rec(a_, *args, **kws):
+                    r = orig(a_, *args, **kws)
+                    drawn.append({'p': [float(t) for t in kws['p']] if kws.get('p') is not None else None, 'r': r.item() if hasattr(r, 'item') else r})
+                    return r
+                np.random.seed(rng.randrange(2 ** 31))
+                np.random.choice = rec
+                try:
+                    with np.errstate(all='ignore'):
+                        nxt, lp = sim.get_next_error(sim.decoders[0], p, prev.copy())
+                finally:
+                    np.random.choice = orig
+                nxt = np.asarray(nxt).ravel()
+                acc = [d_ for d_ in drawn if d_['p'] is not None and len(d_['p']) == 2]
+                rec_ = {'cls': cls, 'size': list(s), 'name': nm, 'axis': ax, 'dir': [a, b, c], 'p': p,
+                        'x': [int(i) for i in np.nonzero(prev[:n])[0]], 'z': [int(i) for i in np.nonzero(prev[n:])[0]],
+                        'next_x': [int(i) for i in np.nonzero(nxt[:n])[0]], 'next_z': [int(i) for i in np.nonzero(nxt[n:])[0]],
+                        'logp': float(lp), 'logp_expected': stated_log(nxt), 'q': None, 'q_expected': None, 'proposal': None}
+                diff = [i for i in range(n) if (nxt[i], nxt[n + i]) != (prev[i], prev[n + i])]
+                if len(acc) == 1 and len(drawn) == 3 and isinstance(drawn[0]['r'], int) and drawn[1]['r'] in ('X', 'Y', 'Z'):
+                    # the three documented draws: qubit, Pauli, accept/reject with probability q
+                    ei, eP = drawn[0]['r'], drawn[1]['r']
+                    new = prev.copy()
+                    new[ei] ^= int(eP in 'XY')
+                    new[n + ei] ^= int(eP in 'ZY')
+                    l0, l1 = stated_log(prev), stated_log(new)
+                    rec_['q'] = acc[0]['p'][1]
+                    rec_['q_expected'] = 0.0 if l1 == -math.inf else math.exp(min(0.0, l1 - l0))
+                    rec_['proposal'] = [int(ei), eP]
+                rec_['moved'] = diff
+                res['metro'].append(rec_)
     json.dump(res, open(out, 'w'))
     print({k: len(v) for k, v in res.items()})
 
